@@ -48,6 +48,12 @@ pub struct KillCase {
     /// exist when the victim starts
     #[serde(default)]
     pub pre_dirty: bool,
+    /// label of the point at which the victim died. The order in which routinator processes
+    /// sibling CAs and manifest entries is randomised (manifest shuffle, not seedable), so the same k
+    /// can fall into another operation when the case is re-run; a replay therefore also explores
+    /// every point of the re-run that carries this label.
+    #[serde(default)]
+    pub label: String,
 }
 
 #[derive(Clone, Copy, Debug, PartialEq, Eq)]
@@ -588,7 +594,7 @@ fn evaluate(ctx: &Ctx, rep: &mut Report, p: &Prepared, points: &[u64], skip_know
         if std::env::var_os("RV_DEBUG").is_some() {
             eprintln!("C23 debug: k={} label={} killed={} dropped={:?} excluded={:?} classes={:?} failures={:?}", k, o.label, o.killed, o.dropped, o.excluded, o.info.classes, o.failures.iter().map(|f| &f.0).collect::<Vec<_>>());
         }
-        let case = Tagged { sub: "kill".to_string(), case: KillCase { sc: p.sc.clone(), k: *k, pre_dirty: p.pre_dirty } };
+        let case = Tagged { sub: "kill".to_string(), case: KillCase { sc: p.sc.clone(), k: *k, pre_dirty: p.pre_dirty, label: o.label.clone() } };
         for key in &o.excluded {
             rep.exclude_known(key);
         }
@@ -633,6 +639,7 @@ pub fn run(ctx: &Ctx, rep: &mut Report, replay: Option<&serde_json::Value>) {
     rep.assume("the kill is abort() in the victim process (no destructors, buffered data lost, temporary files left): faithful to SIGKILL; re-ordering or loss of completed writes by a power failure is out of scope");
     rep.assume("kill points are the labelled fs steps of store.rs and utils/fatal.rs (feature verif-hooks); fatal::write_file is emulated as create-empty / half-written / complete; individual write() calls inside a header or status write are not split further");
     rep.assume("the fake rsync transport (rvrsync) is a separate process and is never killed; partial module copies are not part of this property");
+    rep.assume("routinator shuffles manifest entries with a thread-local RNG that cannot be seeded from outside: the operation a given k falls into, and the number of kill points (by a few), differ between victim runs of one scenario; every victim reports the label it died at, a replay explores k-2..k+2 and every point carrying the recorded label");
     rep.assume("StoredPoint::reject is not reached: it needs a stored manifest that no longer decodes, which no crash state produces");
     let bin = match hooked_binary() {
         Ok(b) => b,
@@ -646,7 +653,23 @@ pub fn run(ctx: &Ctx, rep: &mut Report, replay: Option<&serde_json::Value>) {
         let t: Tagged<KillCase> = serde_json::from_value(v.clone()).expect("replay");
         let roles = vec!["replay".to_string()];
         match prepare(&t.case.sc, roles, &bin, t.case.pre_dirty) {
-            Ok(p) => evaluate(ctx, rep, &p, &[t.case.k], false, &mut tally),
+            Ok(p) => {
+                let m = p.labels.len() as u64;
+                let mut points: BTreeSet<u64> = (t.case.k.saturating_sub(3).max(1)..=(t.case.k + 3).min(m + 3)).collect();
+                for (i, l) in p.labels.iter().enumerate() {
+                    if *l == t.case.label {
+                        points.insert(i as u64 + 1);
+                    }
+                }
+                let points: Vec<u64> = points.into_iter().collect();
+                // up to three passes: which operation a given k hits varies from run to run
+                for _ in 0..3 {
+                    evaluate(ctx, rep, &p, &points, false, &mut tally);
+                    if rep.violated() || !rep.known_hits.is_empty() {
+                        break;
+                    }
+                }
+            }
             Err(e) => {
                 eprintln!("C23 replay: cannot prepare the scenario: {}", e);
                 std::process::exit(2);
@@ -674,8 +697,12 @@ pub fn run(ctx: &Ctx, rep: &mut Report, replay: Option<&serde_json::Value>) {
             }
         };
         let t_prep = ctx.start.elapsed().as_secs_f64();
-        let points = select_points(&p.labels, POINT_CAP, ctx.seed_for(&format!("points{}", n)));
-        if points.len() < p.labels.len() {
+        let mut points = select_points(&p.labels, POINT_CAP, ctx.seed_for(&format!("points{}", n)));
+        // the number of kill points varies a little between runs of the same scenario (an incomplete
+        // update is noticed at a random position of the shuffled manifest): cover a longer tail
+        let m = p.labels.len() as u64;
+        points.extend(m + 1..=m + 3);
+        if points.len() < p.labels.len() + 3 {
             all_points = false;
         }
         evaluate(ctx, rep, &p, &points, !ctx.strict, &mut tally);
@@ -683,6 +710,19 @@ pub fn run(ctx: &Ctx, rep: &mut Report, replay: Option<&serde_json::Value>) {
         per_scenario.push(json!({"cas": sc.cas.len(), "roles": p.roles, "kill_points": p.labels.len(), "explored": points.len(), "pre_state_run_dirty": pre_dirty}));
         if rep.violated() {
             break;
+        }
+    }
+    // samples: keep the shape of the scenario, not every object
+    for smp in rep.samples.iter_mut() {
+        if let Some(sc) = smp.pointer_mut("/case/sc") {
+            if let Ok(full) = serde_json::from_value::<Scenario>(sc.clone()) {
+                let cas: Vec<_> = full
+                    .cas
+                    .iter()
+                    .map(|c| json!({"parent": c.parent, "module": c.module, "objects": c.versions.iter().map(|v| v.objs.len()).collect::<Vec<_>>(), "faults": c.versions.iter().map(|v| format!("{:?}", v.fault)).collect::<Vec<_>>(), "omits": c.versions.iter().map(|v| v.omit_children.clone()).collect::<Vec<_>>()}))
+                    .collect();
+                *sc = json!({"summary_of_scenario": {"cas": cas, "publish": full.steps.iter().map(|s| s.publish.clone()).collect::<Vec<_>>(), "fail_modules": full.steps.iter().map(|s| s.fail_modules.clone()).collect::<Vec<_>>()}});
+            }
         }
     }
     rep.extra.insert("scenarios".into(), json!(per_scenario));
